@@ -70,10 +70,14 @@ func runC06(c *vf.Ctx) {
 		}
 		r := c.Rand(sub, i)
 		nsrc := 1 + r.Intn(3)
-		ttlMode := []string{"huge", "huge", "tiny"}[r.Intn(3)]
+		ttlMode := []string{"huge", "huge", "tiny", "short"}[r.Intn(4)]
 		ttl := time.Hour
 		if ttlMode == "tiny" {
 			ttl = time.Nanosecond
+		}
+		if ttlMode == "short" {
+			// several refreshes fit into one time-to-live, and the run outlasts several of them
+			ttl = time.Duration(4+r.Intn(8)) * time.Millisecond
 		}
 		npop := []int{2, 5, 12, 30, 45}[r.Intn(5)]
 		provs := pool[:npop]
@@ -187,6 +191,7 @@ func runC06(c *vf.Ctx) {
 			// afterRefresh applies the property's clauses after a refresh that returned nil.
 			missOverlap := false // set while checking a refresh that overlapped a lookup miss
 			twoRefreshes := false // set when an "overlapping" step really ran two refreshes one after the other
+			missDuringRefresh := false
 			overlapCancelled := false // set while checking a refresh that was requested while a later-cancelled one ran
 			afterRefresh := func(lo, hi time.Time, label string) {
 				l := list()
@@ -199,7 +204,9 @@ func runC06(c *vf.Ctx) {
 					if reported {
 						if inList == nil {
 							key := "reported-provider-not-listed-after-refresh"
-							if overlapCancelled {
+							if missDuringRefresh {
+								key = "reported-provider-not-listed-after-refresh:lookup-missed-during-the-refresh"
+							} else if overlapCancelled {
 								key = "reported-provider-not-listed-after-refresh:requested-during-a-refresh-that-was-then-cancelled"
 							} else if missOverlap {
 								key = "reported-provider-not-listed-after-refresh:refresh-overlapping-lookup-miss"
@@ -221,7 +228,9 @@ func runC06(c *vf.Ctx) {
 							}
 							if !untimedOnly[p] && versionOf(pi) < want {
 								key := "stale-record-after-refresh"
-								if overlapCancelled {
+								if missDuringRefresh {
+									key = "stale-record-after-refresh:lookup-missed-during-the-refresh"
+								} else if overlapCancelled {
 									key = "stale-record-after-refresh:requested-during-a-refresh-that-was-then-cancelled"
 								} else if missOverlap {
 									key = "stale-record-after-refresh:refresh-overlapping-lookup-miss"
@@ -293,7 +302,7 @@ func runC06(c *vf.Ctx) {
 			nsteps := 10 + r.Intn(30)
 			prevKind := "start"
 			for st := 0; st < nsteps && !bad; st++ {
-				kind := []string{"change", "change", "refresh", "refresh", "refresh-cancelled", "refresh-overlap", "refresh-while-miss", "get-miss", "get-negative", "fail-source", "heal-source", "wait", "refresh-overlap-cancelled", "refresh-cancelled-late"}[r.Intn(14)]
+				kind := []string{"change", "change", "refresh", "refresh", "refresh-cancelled", "refresh-overlap", "refresh-while-miss", "get-miss", "get-negative", "fail-source", "heal-source", "wait", "refresh-overlap-cancelled", "refresh-cancelled-late", "miss-while-refresh"}[r.Intn(15)]
 				c.DistinctIn("step_bigrams", prevKind, kind)
 				prevKind = kind
 				switch kind {
@@ -477,6 +486,50 @@ func runC06(c *vf.Ctx) {
 					overlapCancelled = true
 					afterRefresh(lo, hi, fmt.Sprintf("step %d refresh requested while another, later cancelled, refresh was running", st))
 					overlapCancelled = false
+				case "miss-while-refresh":
+					// a refresh is inside a source when a lookup misses: the lookup has looked at the cache as it was
+					// before the refresh and must wait for it; what it publishes afterwards must not undo the refresh
+					if ttlMode != "huge" {
+						break // (the step takes a few milliseconds; keep expiry out of it)
+					}
+					{
+						missP := pool[90+(st+i)%10] // never reported
+						gate := make(chan struct{})
+						entered := make(chan struct{}, 1)
+						srcs[0].mu.Lock()
+						srcs[0].onFetchAll = func(cx context.Context) error {
+							select {
+							case entered <- struct{}{}:
+								<-gate
+							default:
+							}
+							return nil
+						}
+						srcs[0].mu.Unlock()
+						lo := time.Now()
+						rerr := make(chan error, 1)
+						go func() { rerr <- pc.Refresh(context.Background()) }()
+						<-entered
+						missDone := make(chan struct{})
+						go func() { defer close(missDone); _, _ = pc.Get(context.Background(), missP) }()
+						time.Sleep(time.Millisecond) // the lookup reads the snapshot and queues up behind the refresh
+						close(gate)
+						err := <-rerr
+						<-missDone
+						srcs[0].mu.Lock()
+						srcs[0].onFetchAll = nil
+						srcs[0].mu.Unlock()
+						hi := time.Now()
+						steps = append(steps, fmt.Sprintf("a lookup of an unknown provider missed while Refresh was inside %s -> %v", srcs[0].name, err))
+						if err != nil {
+							fail("refresh-error", err.Error())
+							break
+						}
+						c.Inc("lookup_misses_during_a_refresh")
+						missDuringRefresh = true
+						afterRefresh(lo, hi, fmt.Sprintf("step %d refresh during which a lookup missed", st))
+						missDuringRefresh = false
+					}
 				case "refresh-while-miss":
 					// a lookup miss is inside a source when Refresh is called
 					if ttlMode == "tiny" {
